@@ -4,6 +4,6 @@ CONSTANTS Chans = {1} Rows = {13} Chars = {65} MaxPairs = 7
   Kinds = {"RCL", "EOC", "RU", "RDC", "EDM", "ENM", "PAC", "TEXT"}
   Mix <- NoMix Bursts <- NoBurst
 SPECIFICATION GSpec
-VIEW gview
+VIEW gview2
 ACTION_CONSTRAINT TDump
 CHECK_DEADLOCK FALSE
